@@ -27,6 +27,7 @@ func isLoopTest(c cond) bool {
 }
 
 func checkC06(p *Program, r *Reporter) {
+	unitsRuleByName(p, r, "splitPeriod")
 	r.Explanation = "Static analysis of structural necessary conditions of C06 in splitPeriod: (a) the multiple-of-segment-duration test guards every period-emitting path unconditionally: its failing side is an error return, it dominates the creation of every period, and it is control-dependent (modulo error exits) on nothing but the periods-per-hour presence test; " +
 		"(b) the period-continuity descriptor is created at a single site that is control-dependent on the continuity flag, on the loops over periods and adaptation sets, and on nothing else; " +
 		"(c) the divisions of the period arithmetic have divisors proven non-zero for all request values (E3-A); (d) the per-period startNumber depends on the configured start number (E4). " +
